@@ -114,14 +114,14 @@ func (prog *Prog) Load(src io.Reader) (err error) {
 	var n int
 	var m uint64
 
-	n, _ = r.Read(b[:2])
+	n, _ = io.ReadFull(r, b[:2])
 	if n != 2 {
 		return fmt.Errorf("missing magic header")
 	}
 	if string(b[:2]) != bytecodeMagic {
 		return fmt.Errorf("invalid magic header")
 	}
-	n, _ = r.Read(b[:2])
+	n, _ = io.ReadFull(r, b[:2])
 	if n != 2 {
 		return fmt.Errorf("missing bcode major/minor version")
 	}
